@@ -123,7 +123,7 @@ func runC05(args []string) error {
 	r := newRng(*seed)
 	nMain, nRegion, nCyc, nHost := 80, 32, 4, 40
 	if *tier == "thorough" {
-		nMain, nRegion, nCyc, nHost = 5000, 1500, 60, 3000
+		nMain, nRegion, nCyc, nHost = 2000, 600, 40, 1200
 	}
 	t0 := time.Now()
 	st := &c05State{sm: sm, distinct: distinctSet{}}
@@ -132,10 +132,10 @@ func runC05(args []string) error {
 		units = append(units, &c05Unit{idx: len(units), stream: "main", u: genC05Universe(r.fork(), c05MainKnobs)})
 	}
 	regionKnobs := []c05Knobs{
-		{fieldShadow: 60, methShadow: 70, ptrCycle: 0},                    // more shadowing: depth-first
-		{fieldShadow: 50, methShadow: 50, namedStruct: 35, ptrCycle: 0},   // named-field-descent
-		{fieldShadow: 50, methShadow: 50, fieldMethMix: 50, ptrCycle: 0},  // field-method-depth
-		{fieldShadow: 40, methShadow: 60, sigClash: true, ptrCycle: 0},    // signatures
+		{fieldShadow: 60, methShadow: 70, ptrCycle: 0},                   // more shadowing: depth-first
+		{fieldShadow: 50, methShadow: 50, namedStruct: 35, ptrCycle: 0},  // named-field-descent
+		{fieldShadow: 50, methShadow: 50, fieldMethMix: 50, ptrCycle: 0}, // field-method-depth
+		{fieldShadow: 40, methShadow: 60, sigClash: true, ptrCycle: 0},   // signatures
 	}
 	for i := 0; i < nRegion; i++ {
 		units = append(units, &c05Unit{idx: len(units), stream: "region", u: genC05Universe(r.fork(), regionKnobs[i%len(regionKnobs)])})
@@ -166,16 +166,38 @@ func runC05(args []string) error {
 			input: map[string]any{"level": "witness", "name": w.Name}})
 	}
 	// ids are assigned deterministically per unit: unit k owns [k*100000, (k+1)*100000)
-	parallelMap(len(units), 0, func(i int) {
-		st.prepare(units[i], rngs[i])
-	})
-	if err := st.runAll(units); err != nil {
-		return err
-	}
-	st.collect(units, *dump)
-	units = append(units, st.collectExtras(*dump)...)
-	if err := st.writeCases(*out, units); err != nil {
-		return err
+	// the work proceeds in waves so that the sources of at most a few hundred universes are alive at once
+	const wave = 400
+	allExtras := st.extras
+	for lo := 0; lo < len(units) || len(allExtras) > 0; lo += wave {
+		hi := lo + wave
+		if hi > len(units) {
+			hi = len(units)
+		}
+		var w []*c05Unit
+		if lo < hi {
+			w = units[lo:hi]
+		}
+		ne := len(allExtras)
+		if ne > wave/2 && hi < len(units) {
+			ne = wave / 2
+		}
+		st.extras, allExtras = allExtras[:ne], allExtras[ne:]
+		parallelMap(len(w), 0, func(i int) {
+			st.prepare(w[i], rngs[lo+i])
+		})
+		if err := st.runAll(w); err != nil {
+			return err
+		}
+		st.collect(w, *dump)
+		w = append(append([]*c05Unit{}, w...), st.collectExtras(*dump)...)
+		if err := st.writeCases(*out, w); err != nil {
+			return err
+		}
+		for _, un := range w {
+			un.progs, un.px, un.cases, un.refSrc, un.refOut, un.ct = nil, nil, nil, "", "", nil
+		}
+		st.extras = nil
 	}
 	sm.DistinctNontriv = len(st.distinct)
 	sm.Rule = "one evaluation = one (universe, type, selector name) lookup at function level, or one probe (selector / assertion target / type switch) of a generated program run by yaegi and by compiled Go; " +
@@ -202,12 +224,13 @@ type c05Extra struct {
 }
 
 type c05State struct {
+	nfiles    int
 	fullCount map[string]int
-	extras   []*c05Extra
-	mu       sync.Mutex
-	sm       *summary
-	distinct distinctSet
-	notes    []string
+	extras    []*c05Extra
+	mu        sync.Mutex
+	sm        *summary
+	distinct  distinctSet
+	notes     []string
 }
 
 func (st *c05State) note(format string, a ...any) {
@@ -220,7 +243,9 @@ func (st *c05State) note(format string, a ...any) {
 
 // ---------------------------------------------------------------- preparation of one universe
 
-func intsStr(l []int) string { return strings.Trim(strings.Join(strings.Fields(fmt.Sprint(l)), ","), "[]") }
+func intsStr(l []int) string {
+	return strings.Trim(strings.Join(strings.Fields(fmt.Sprint(l)), ","), "[]")
+}
 
 func coqOptPath(p []int, present bool) string {
 	if !present {
@@ -512,7 +537,6 @@ func (st *c05State) writeCases(out string, units []*c05Unit) error {
 	hdr := "From Verif Require Import Lib.Str Disp.Model Disp.Cases.\n"
 	// one definition per universe, cases grouped by kind
 	const perFile = 25
-	nfiles := 0
 	for lo := 0; lo < len(units); lo += perFile {
 		hi := lo + perFile
 		if hi > len(units) {
@@ -536,8 +560,8 @@ func (st *c05State) writeCases(out string, units []*c05Unit) error {
 				coqList(byKind["fl"]), coqList(byKind["ms"]), coqList(byKind["impl"]), coqList(byKind["psel"]), coqList(byKind["assert"]), coqList(byKind["switch"])))
 		}
 		fmt.Fprintf(&b, "Definition cases : list ucase := [\n%s\n].\nDefinition MY := Eval vm_compute in c05_mis_y cases.\nPrint MY.\nDefinition MG := Eval vm_compute in c05_mis_g cases.\nPrint MG.\n", strings.Join(items, ";\n"))
-		name := fmt.Sprintf("cases_c05_%d.v", nfiles)
-		nfiles++
+		name := fmt.Sprintf("cases_c05_%d.v", st.nfiles)
+		st.nfiles++
 		if err := os.WriteFile(filepath.Join(out, name), []byte(b.String()), 0o644); err != nil {
 			return err
 		}
